@@ -20,7 +20,7 @@ func init() { register(c03{}) }
 
 func (c03) ID() string { return "C03" }
 func (c03) Rule() string {
-	return "systematic: every location of gen.Universe(L<=5|6, arity<=3) as the single labelled feature (keys gene and source) x every Delete/Erase (i,n) with 0<=i, i+n<=L and every Slice window (s,e) in [-L,L]^2 incl. negative spellings and wrap-around (empty windows excluded; ambiguous spans and full-length parts excluded for wrap-around); seeded: lengths<=60, tables<=8 features incl. source features, BasicSequence and seqio.GenBank hosts, GenBank hosts carry generated REFERENCE '(bases a to b; c to d)' lines whose expected clipping is computed by interval arithmetic. Oracle: residues per the window arithmetic; surviving features' base atoms == before minus removed in order and strand; cut ends open (all markers stripped on source after Slice), uncut ends keep their marker (markers on a junction of two abutting expected parts are don't-care); Delete: a feature that lost everything consists of sites at the cut; Erase: it is absent unless source; Slice: features with no base in the window are absent (a feature with a site inside the window is don't-care); coordinates within [0,newlen]; slice is linear; references clipped, re-based, dropped, renumbered. non-trivial: some feature shares a residue with the removed/kept boundary region; distinct: canonical case text."
+	return "systematic: every location of gen.Universe(L<=5|6, arity<=3) as the single labelled feature (keys gene and source) x every Delete/Erase (i,n) with 0<=i, i+n<=L and every Slice window (s,e) in [-L,L]^2 incl. negative spellings and wrap-around (empty windows excluded; ambiguous spans and full-length parts excluded for wrap-around); seeded: lengths<=60, tables<=8 features incl. source features, BasicSequence and seqio.GenBank hosts, GenBank hosts carry generated REFERENCE '(bases a to b; c to d)' lines whose expected clipping is computed by interval arithmetic. Oracle: residues per the window arithmetic; surviving features' base atoms == before minus removed in order and strand; cut ends open (all markers stripped on source after Slice), uncut ends keep their marker (markers on a junction of two abutting expected parts are don't-care); Delete: a feature that lost everything consists of sites at the cut; Erase: it is absent unless source; Slice: features with no base in the window are absent (a feature with a site inside the window is don't-care); coordinates within [0,newlen]; slice is linear; references clipped, re-based, dropped, renumbered. non-trivial: some feature shares a residue with the removed/kept boundary region; distinct: canonical case text. CLI layer: gts delete [-e], gts extract [-v] and gts split of the real binary (--no-cache) on generated records and the corpus record, single and as streams, judged by the C15 models (residues minus the union of the located regions; one record per distinct region, with -v the maximal unlocated stretches; pieces concatenate to the input; a stream's output equals the outputs of its records alone)."
 }
 func (c03) RequiredBuckets(tier string) []string {
 	var out []string
